@@ -23,6 +23,8 @@ type C16 struct {
 	Stranger sdk.AccAddress
 	Base   uint64 // batch nonces already used on every chain (genesis field LastOutgoingBatchTxNonce)
 	Keyless bool  // a fifth bonded validator E that never registered keys
+	Rotate  bool  // validator A may register new keys (MsgDelegateKeys again) after it has confirmed
+	Heights bool  // external heights are observed (deposits claimed by all bonded validators), so batches carry real timeouts
 }
 
 func NewC16() *C16 {
@@ -35,6 +37,10 @@ func (c *C16) Setup(in *hub.Instance) {}
 func (c *C16) SeedPaths() [][]engine.Op {
 	if c.Base > 0 {
 		return [][]engine.Op{{engine.OpN("MkBatch", "ethereum"), engine.OpN("MkBatch", "ethereum"), engine.OpN("MkBatch", "ethereum")}}
+	}
+	if c.Heights {
+		// an external height is known, then a batch is built (it gets a timeout a few thousand blocks ahead)
+		return [][]engine.Op{{engine.OpN("Dep", "ethereum", 500), engine.OpN("Next"), engine.OpN("MkBatch", "ethereum")}}
 	}
 	return [][]engine.Op{{}, {engine.OpN("MkBatch", "ethereum"), engine.OpN("MkBatch", "bsc"), engine.OpN("MkCall", "ethereum"), engine.OpN("MkCall", "bsc")},
 		// three batches of one token (nonces 1..3) and one of another token (nonce 4) on ethereum
@@ -121,6 +127,12 @@ func (c *C16) Ops(s *HState) []engine.Op {
 				}
 			}
 		}
+	}
+	if c.Rotate {
+		ops = append(ops, engine.OpN("Rotate"))
+	}
+	if c.Heights {
+		ops = append(ops, engine.OpN("Dep", "ethereum", 600), engine.OpN("Dep", "ethereum", 10_000_000))
 	}
 	ops = append(ops, engine.OpN("Next"))
 	return ops
@@ -210,9 +222,25 @@ func (c *C16) Do(in *hub.Instance, gg Ghost, op engine.Op, st *engine.Step) {
 	g := gg.(*c16Ghost)
 	switch op.Kind {
 	case "Next":
-		if p := in.NextBlock(5); BlockFailure(st, p) {
+		// the queries are also asked at the block boundary (after the EndBlockers, before the next BeginBlocker)
+		if p := in.EndBlock(); BlockFailure(st, p) {
 			return
 		}
+		c.queries(in, g, st)
+		if p := in.BeginBlock(5); BlockFailure(st, p) {
+			return
+		}
+	case "Dep":
+		// every bonded validator claims a deposit observed at the given external height
+		ch := op.S[0]
+		n := in.Hub.GetLastObservedEventNonce(in.Ctx(), mhubtypes.ChainID(ch)) + 1
+		ev := &mhubtypes.SendToHubEvent{EventNonce: n, ExternalCoinId: tokenOn(ch), Amount: sdk.NewInt(5), Sender: hub.HexAddr("dep"), CosmosReceiver: c.User.String(), ExternalHeight: uint64(op.I[0]) + n, TxHash: fmt.Sprintf("0xc16dep%d", n)}
+		for i, v := range c.Vals {
+			if i < len(in.Staking.Vals) && in.Staking.Vals[i].Bonded {
+				in.DeliverMsg(hub.EventMsg(v.Orch, ch, ev))
+			}
+		}
+		st.Obs = "dep"
 	case "MkBatch":
 		ch := op.S[0]
 		r := in.DeliverMsg(mhubtypes.NewMsgSendToExternal(mhubtypes.ChainID(ch), c.User, hub.HexAddr("r"), sdk.NewInt64Coin("hub", 1000), sdk.NewInt64Coin("hub", 5)))
@@ -237,6 +265,12 @@ func (c *C16) Do(in *hub.Instance, gg Ghost, op engine.Op, st *engine.Step) {
 		st.Obs = fmt.Sprint(exists)
 	case "Confirm":
 		c.confirm(in, g, op, st)
+	case "Rotate":
+		// validator A registers a new orchestrator and a new external key on ethereum
+		v := c.Vals[0]
+		seq, _ := in.Acc.GetSequence(in.Ctx(), v.Acc)
+		r := in.DeliverMsg(hub.DelegateKeysMsg(in.Cdc, v, "ethereum", hub.User("c16neworch"), hub.EthKey("c16rot"), seq))
+		st.Obs = fmt.Sprint(r.OK())
 	}
 	c.queries(in, g, st)
 }
@@ -374,6 +408,14 @@ func (c *C16) queries(in *hub.Instance, g *c16Ghost, st *engine.Step) {
 			}
 			for k, v := range want {
 				if got[k] != v {
+					// the same signature returned under the address the validator registered LATER (keys re-registered after the
+					// confirmation): the (address, signature) pair no longer verifies
+					for k2, v2 := range got {
+						if v2 == v && want[k2] == "" {
+							st.Violate("C16", "confirmation_attributed_to_a_later_registered_key", what, "chain %s: the signature made with %s is returned as a signature of %s", chain, k, k2)
+							return
+						}
+					}
 					st.Violate("C16", "confirmations_query_wrong", what, "chain %s: signer %s: got %q want %q", chain, k, got[k], v)
 					return
 				}
@@ -504,12 +546,20 @@ func init() {
 		long.Oper, long.Acc = sdk.ValAddress(lb), sdk.AccAddress(lb)
 		odd.Vals[0] = long
 		odd.Vals[1] = edgeValidator("B", 0xff, 0xff)
+		hts := NewC16()
+		hts.Heights = true
+		hts.Chains = []string{"ethereum"}
+		rot := NewC16()
+		rot.Rotate = true
+		rot.Chains = []string{"ethereum"}
 		kl := NewC16()
 		kl.Keyless = true
 		kl.Chains = []string{"ethereum"}
 		kl.Vals = append(kl.Vals, hub.NewValidator("E"))
 		return []MultiCase{{Name: "fresh chain", Spec: NewC16(), Cfg: cfg}, {Name: "batch nonces 254..256", Spec: hi, Cfg: cfg},
 				{Name: "a bonded validator that never registered keys", Spec: kl, Cfg: cfg},
+				{Name: "validator A registers new keys after confirming", Spec: rot, Cfg: cfg},
+				{Name: "observed external heights, a batch with a real timeout", Spec: hts, Cfg: cfg},
 				{Name: "operator addresses of 32 bytes (A) and 0xff..ff (B)", Spec: odd, Cfg: cfg}}, []string{
 			"validators A, B bonded, C unbonded, D unbonding (all with registered keys); batches: up to three of one token plus one of a second token on ethereum; signers: validator account, orchestrator, stranger; tx refs: existing/unknown signer set, existing/unknown batch, contract call; claimed external signer own/other's; a confirmation built for the other chain's batch; duplicates by repetition",
 			"second case: the chain has already issued 253 batch nonces (genesis field LastOutgoingBatchTxNonce), so that the next batches straddle a byte boundary of the nonce inside the signature store keys",
